@@ -6,6 +6,9 @@ decode    : every emitted (text, value) is parsed by the real dialects (select l
             value; column / table position for paths) and the value in the tree must be the denoted one.
 encode    : every emitted value / part list is put in a tree and printed by the real code; the printed
             characters are judged by TLC (LexemeTrace) with the scanner of the library's own rules.
+render    : every emitted name (all sequences of <= 2 (3) characters over 17 classes, long names, a keyword) in four
+            positions of a statement rendered through SQLAlchemy for eleven ways of naming a dialect (six names, five
+            dialect classes); the rendered statement is matched by TLC (MatchSegs / TPath) under the target's rules.
 numbers   : a fixed list of spellings (leading zeros, trailing zeros, big integers, signs), checked in Python.
 """
 import json
@@ -117,6 +120,33 @@ def _encode_case(args):
     except Exception as e:   # noqa
         res['exc'] = '%s: %s' % (type(e).__name__, e)
     return res
+
+
+RENDER_SPECS = [('mysql', 't_bq'), ('postgresql', 't_dq'), ('postgres', 't_dq'), ('sqlite', 't_dq'), ('mssql', 't_br'), ('oracle', 't_dq'),
+                ('class:mysql', 't_bq'), ('class:postgresql', 't_dq'), ('class:sqlite', 't_dq'), ('class:mssql', 't_br'), ('class:oracle', 't_dq')]
+
+
+def _render_paths(names):
+    import importlib
+    from mindsdb_sql.parser.ast import Identifier, Select
+    from mindsdb_sql.render.sqlalchemy_render import SqlalchemyRender
+    out = []
+    for spec, style in RENDER_SPECS:
+        try:
+            arg = importlib.import_module('sqlalchemy.dialects.' + spec[6:]).dialect if spec.startswith('class:') else spec
+            rnd = SqlalchemyRender(arg)
+        except Exception as e:   # noqa
+            out.append((spec, style, [], None, '%s: %s' % (type(e).__name__, e)))
+            continue
+        for w in names:
+            nm = s_of(w)
+            q = Select(targets=[Identifier(parts=[nm]), Identifier(parts=['t', nm], alias=Identifier(parts=[nm]))],
+                       from_table=Identifier(parts=['db', nm]))
+            try:
+                out.append((spec, style, w, rnd.get_string(q, with_failback=False), None))
+            except Exception as e:   # noqa
+                out.append((spec, style, w, None, '%s: %s' % (type(e).__name__, str(e)[:200])))
+    return out
 
 
 def _encode_many(cases):
@@ -321,6 +351,43 @@ def run(ctx):
     ctx.assumptions += ['only escape units with an unambiguous meaning are generated for decoding ('' \\\' \\" \\\\)',
                         'decimals are compared after conversion to float (float precision is accepted)',
                         'a literal the dialect rejects is outside the property (counted, not judged)']
+    # ---------------- identifier paths through the SQLAlchemy renderer, for every way a dialect can be named: the rendered
+    # statement must consist of exactly its key words and four paths, each denoting the given parts under the TARGET's rules
+    tnames = [v[1] for v in find_prints(r.out, 'TNAME')]
+    if not tnames:
+        raise MachineryError('LexemeMC emitted no target-name cases')
+    rres = pmap(_render_paths, [tnames[i:i + 40] for i in range(0, len(tnames), 40)], chunksize=1)
+    rtr, rmeta = [], []
+    for chunk in rres:
+        for spec_, style_, w_, txt_, exc_ in chunk:
+            if exc_:
+                ctx.violation('render-path:raises:%s' % exc_.split(':')[0], 'rendering a statement whose names contain unusual characters raised',
+                              {'dialect': spec_, 'name': s_of(w_), 'error': exc_})
+                continue
+            lit = lambda x: {'t': 'lit', 'w': [ord(ch) for ch in x]}    # noqa
+            t_, db_ = [ord('t')], [ord('d'), ord('b')]
+            rtr.append({'kind': 'tstmt', 'style': style_, 'text': [ord(ch) for ch in txt_], 'value': [], 'parts': [],
+                        'segs': [lit('SELECT'), {'t': 'path', 'parts': [w_]}, lit(','), {'t': 'path', 'parts': [t_, w_]}, lit('AS'),
+                                 {'t': 'path', 'parts': [w_]}, lit('FROM'), {'t': 'path', 'parts': [db_, w_]}]})
+            rmeta.append((spec_, w_, txt_))
+    path2 = ctx.work / 'lexemetraces_render.json'
+    dump_json(path2, rtr)
+    tr2 = ctx.tlc('LexemeTrace', env={'VERIF_TRACES': path2}, name='lexeme_trace_render', timeout=3000)
+    if not tr2.ok:
+        raise MachineryError('LexemeTrace (rendered paths) failed: %s' % tr2.errors[:3])
+    ver2 = {x[0]: x[1] for x in tr2.prints('ACC')}
+    if len(ver2) != len(rtr):
+        raise MachineryError('LexemeTrace judged %d of %d rendered statements' % (len(ver2), len(rtr)))
+    for i, (spec_, w_, txt_) in enumerate(rmeta):
+        if ver2[i + 1] != 'ok':
+            nm = s_of(w_)
+            cls = 'long' if len(nm) > 60 else ''.join(sorted({ch if not ch.isalnum() else ('A' if ch.isupper() else ('1' if ch.isdigit() else 'a')) for ch in nm}))
+            ctx.violation('render-path:%s:%s' % (spec_.split(':')[0] if spec_.startswith('class') else 'name', ver2[i + 1]),
+                          'the rendered identifier does not denote the name held in the tree under the target dialect\'s rules',
+                          {'dialect': spec_, 'name': nm, 'rendered': txt_, 'verdict': ver2[i + 1], 'characters': cls})
+    ctx.cov['rendered_path_statements'] = len(rtr)
+    ctx.cov['traces_validated_against_impl'] += len(rtr)
+    ctx.cov['evaluations'] += len(rtr)
     # ---------------- an identifier prints what it holds NOW: print, edit the parts in place (what the grammar's
     # `identifier DOT identifier` action and the planner's qualifier stripping do), print again
     from mindsdb_sql import parse_sql as _ps
